@@ -298,6 +298,8 @@ def generate(run_seed: int, tier: str = 'quick', stream: str = 'seq') -> dict:
             if q in disabled_q:
                 continue
             op = {'op': 'QUERY', 'obj': ref(), 'q': q, 'client': client}
+            if rng.chance(0.4):
+                op['pos'] = True  # positional spelling of the arguments where the signature allows it
             if q == 'to_volume':
                 op['res'] = rng.pick([0.2, 0.31, 0.5, 1.0, 0.7])
             elif q == 'transitions':
@@ -326,6 +328,9 @@ def generate(run_seed: int, tier: str = 'quick', stream: str = 'seq') -> dict:
             d = rng.pick(DERIVE)
             counter += 1
             op = {'op': 'DERIVE', 'obj': ref(), 'how': d, 'name': f'd{counter}', 'client': client}
+            spell = rng.pick(['', '', 'pos', 'kw'])
+            if spell:
+                op[spell] = True
             if d == 'filter':
                 op['sel'] = rng.pick(['str', 'list', 'tuple', 'set'])
                 op['which'] = [rng.randrange(3) for _ in range(rng.randint(1, 2))]
@@ -638,7 +643,7 @@ class Run:
             if M2 is None:
                 return self.trace.log(**logged, skipped='empty')
             try:
-                new = T.filter(arg) if how == 'filter' else T[arg]
+                new = (T.filter(species=arg) if op.get('kw') else T.filter(arg)) if how == 'filter' else T[arg]
             except Exception as ex:  # noqa: BLE001
                 self.violation('derive_raised', f'{how}({arg!r}) on {e.name} raised {type(ex).__name__}: {ex}', {'how': how})
             self.add_entry(name, new, M2, e, how)
@@ -663,7 +668,7 @@ class Run:
             if not 1 <= n <= len(e.M['P']) - 1:
                 return self.trace.log(**logged, skipped='n')
             try:
-                parts = T.split(n, equal_parts=op['equal'])
+                parts = T.split(n, op['equal']) if op.get('pos') else T.split(n_parts=n, equal_parts=op['equal']) if op.get('kw') else T.split(n, equal_parts=op['equal'])
             except Exception as ex:  # noqa: BLE001
                 self.violation('derive_raised', f'split({n}, equal_parts={op["equal"]}) on {e.name} raised {type(ex).__name__}: {ex}', {'how': how})
             if len(parts) != n:
@@ -830,10 +835,13 @@ class Run:
         if q == 'haven_ratio':
             return np.array([float(T.metrics().haven_ratio(dimensions=op.get('dim', 3)))])
         if q == 'to_volume':
-            v = T.to_volume(resolution=op.get('res', 0.5))
+            v = T.to_volume(op.get('res', 0.5)) if op.get('pos') else T.to_volume(resolution=op.get('res', 0.5))
             return np.asarray(v.data)
         if q == 'transitions':
-            tr = T.transitions_between_sites(self.sites, self.sym(0), site_radius=float(op.get('radius', 0.8)), site_inner_fraction=op.get('inner', 1.0))
+            if op.get('pos'):
+                tr = T.transitions_between_sites(self.sites, self.sym(0), float(op.get('radius', 0.8)), op.get('inner', 1.0))
+            else:
+                tr = T.transitions_between_sites(sites=self.sites, floating_specie=self.sym(0), site_radius=float(op.get('radius', 0.8)), site_inner_fraction=op.get('inner', 1.0))
             return (np.asarray(tr.states), tr.events.to_numpy())
         if q == 'rdf':
             r = T.radial_distribution_between_species(specie_1=self.sym(op.get('s1', 0)), specie_2=self.sym(op.get('s2', 1)), max_dist=4.0, resolution=op.get('res', 0.137))
